@@ -15,10 +15,13 @@ OBLIGATIONS = [
     "Pkgcore.C01.suffix_table_complete",
     "Pkgcore.C01.versionMatch_agrees",
     "Pkgcore.C01.versionMatch_tilde",
+    "Pkgcore.C01.lex_render",
+    "Pkgcore.C01.verCmpStr_eq_pms",
 ]
 TRUSTED = [
-    "lexing of version strings (str.split('_'), str.split('.'), suffix_regexp, isvalid_version_re) is modelled as the structure `Ver`; "
-    "tied to the code by rendering generated `Ver` values to strings and running the real ver_cmp on the strings",
+    "lexing of version strings (str.split('_'), str.split('.'), letter extraction, suffix_regexp, isvalid_version_re) is modelled by lexVer and proved "
+    "to invert rendering (lex_render); it is ASCII-only: Python's \\d / isalpha also accept non-ASCII digits/letters and `$` accepts a trailing newline, "
+    "which the model does not reproduce (the generators stay inside printable ASCII)",
     "tables suffix_value and _VersionMatch._convert_str2op are regenerated from the imported modules on every run",
 ]
 ASSUMPTIONS = ["revisions reach ver_cmp either both None (the ~ operator) or both Revision objects (everything else), as all call sites in pkgcore do"]
@@ -184,6 +187,46 @@ def run(ctx):
                     ctx.violation(case, f"CPV rich comparisons {got} disagree with PMS order {spec}")
             except Exception as e:
                 ctx.violation(case, f"CPV construction/comparison raised {type(e).__name__}: {e}")
+
+    # ---- string level: acceptance (isvalid_version_re vs lexVer) and comparison on raw strings
+    strs = []
+    alphabet = "0123456789._abeprclht-R "
+    for (a, ra, b, rb) in cases[: ctx.n(1500, 30000)]:
+        for v in (a, b):
+            t = render(v)
+            k = rng.random()
+            if k < 0.5 and t:
+                i = rng.randrange(len(t) + 1)
+                op = rng.randrange(3)
+                if op == 0:
+                    t = t[:i] + rng.choice(alphabet) + t[i:]
+                elif op == 1 and i < len(t):
+                    t = t[:i] + t[i + 1:]
+                elif i < len(t):
+                    t = t[:i] + rng.choice(alphabet) + t[i + 1:]
+            strs.append(t)
+    strs += ["", "1", "a", "1a", "1.a", "1..2", ".1", "1.", "1_", "1_p", "1_pre", "1_prex", "1_p1_", "1a_alpha_beta2", "1_rc_1", "1__p", "1_P", "1A", "1ab", "01"]
+    lexed = ctx.model([{"cmd": "c01.lex", "s": t} for t in strs])
+    acc = 0
+    for t, lx in zip(strs, lexed):
+        want = bool(cpv.isvalid_version_re.match(t))
+        ctx.case({"string": t}, lx is not None, key="lex|" + t)
+        ctx.count("lex_accept" if want else "lex_reject")
+        if want != (lx is not None):
+            ctx.mismatch({"string": t}, f"isvalid_version_re accepts={want}, Lean lexVer accepts={lx is not None}")
+        acc += want
+    good = [t for t, lx in zip(strs, lexed) if lx is not None and cpv.isvalid_version_re.match(t)]
+    pairs = [(rng.choice(good), rng.choice(REVS), rng.choice(good), rng.choice(REVS)) for _ in range(ctx.n(1500, 30000))]
+    for (s1, ra, s2, rb), rep in zip(pairs, ctx.model([{"cmd": "c01.vercmpstr", "s1": s1, "r1": ra, "s2": s2, "r2": rb} for s1, ra, s2, rb in pairs])):
+        case = {"ver1": s1, "rev1": ra, "ver2": s2, "rev2": rb, "level": "string"}
+        try:
+            impl = sign(ver_cmp(s1, Revision(ra), s2, Revision(rb)))
+        except Exception as e:
+            ctx.violation(case, f"ver_cmp raised {type(e).__name__}: {e}")
+            continue
+        ctx.case(case, s1 != s2, key=f"str|{s1}|{ra}|{s2}|{rb}")
+        if impl != rep:
+            ctx.violation(case, f"ver_cmp on the strings gives {impl}; the PMS algorithm on their parts gives {rep}")
 
     # ---- total preorder on the implementation itself (triples)
     pool = [(render(a), ra) for a, ra, _, _ in cases[: ctx.n(60, 160)]] + [(render(b), rb) for _, _, b, rb in cases[: ctx.n(60, 160)]]
